@@ -26,7 +26,7 @@ COMPONENTS = {'real': ['yldprolog.compiler pipeline', 'yldprolog.engine (YP subc
                        'generated clause code', 'CPython generators / refcount finalisation'],
               'stub': ['consumer (abandons at every k by close/drop/throw)', 'native predicates (harness generators with raise switches)'],
               'oracle': ['self-referential: registry snapshot equality, nested-query restore on the exhaustion path, re-run equality with the fault-free run']}
-REQUIRED_PROBES = ('fault_unify_k0', 'fault_unify_k1', 'fault_bounded_projection_raised', 'fault_close', 'fault_drop', 'fault_throw', 'fault_user_raise_fired', 'abandoned_with_bound_vars',
+REQUIRED_PROBES = ('fault_bystander_inner', 'fault_bystander_outer', 'fault_unify_k0', 'fault_unify_k1', 'fault_bounded_projection_raised', 'fault_close', 'fault_drop', 'fault_throw', 'fault_user_raise_fired', 'abandoned_with_bound_vars',
                    'abandoned_with_2plus_live_queries', 'worlds_with_prebinding')
 
 ANSWER_CAP = 12
@@ -191,6 +191,107 @@ def run_query(sim, yp, name, qargs, ctl, k, mode, fault, cap=ANSWER_CAP):
     return ans, end, info
 
 
+def run_bystander(sim, yp, name, qargs, ctl, k, mode, order, kind, log):
+    """the query and an independent generator over variables of its own are suspended at the same time and do not
+    end in LIFO order.  returns (answers of the query, end, info) or (None, None, None) after logging a violation"""
+    from yldprolog.engine import unify
+    from ..machine import end_task
+    ctl['fault'] = None
+    ctl['calls'] = 0
+    ctl['fired'] = 0
+
+    def start_bystander():
+        z1, z2 = yp.variable(), yp.variable()
+        if kind == 'unify':
+            g = unify(yp.functor('bys', [z1, yp.atom('k'), yp.functor('w', [z2])]), yp.functor('bys', [yp.atom('z'), yp.atom('k'), yp.functor('w', [yp.atom('y')])]))
+        else:
+            g = yp.query('bys_fact', [z1, yp.functor('w', [z2])])
+        t = GenTask(g)
+        if not t.step():
+            raise Discard('bystander-has-no-answer')
+        return t, (z1, z2)
+    # the per-query monitors assume LIFO nesting of everything that is alive (they compare the whole registry on a
+    # query's exhaustion path), which is exactly what these cases do not have: they run unmonitored, like R0
+    sim.monitor = False
+
+    def bystander_state(zs):
+        return [TM.observe(z, sim.idx) for z in zs]
+    want = [('a', 'z'), ('a', 'y')]
+    task = GenTask(yp.query(name, qargs))
+    ans = []
+    end = None
+    info = {}
+    try:
+        if order == 'outer':
+            bt, zs = start_bystander()
+        while len(ans) < k:
+            if not task.step():
+                end = 'exhausted'
+                break
+            ans.append(observe_answer(sim, qargs))
+            if order == 'inner' and len(ans) == 1:
+                bt, zs = start_bystander()
+        if order == 'inner' and not ans:
+            bt, zs = start_bystander()
+        info['live'] = tuple(sim.live)
+        info['bound'] = sim.bound_count()
+        if order == 'inner':
+            # the query ends first (by `mode`, or by exhaustion if it already is exhausted)
+            if end is None:
+                if mode == 'resume':
+                    n_ = 0
+                    while task.step() and n_ < ANSWER_CAP:
+                        n_ += 1
+                    task.close()
+                    end = 'resumed'
+                else:
+                    o = end_task(task, mode)
+                    if o[0] == 'dropped':
+                        info['dead'] = o[1]
+                    end = 'bystander-' + mode
+            if bystander_state(zs) != want:
+                log.violation('other-generator-lost-its-bindings', {'fault': ['bystander', k, mode, order, kind], 'bystander_variables': [TM.show(x) for x in bystander_state(zs)],
+                                                                    'expected': [TM.show(x) for x in want], 'note': 'ending the query changed variables it never touched'})
+                bt.close()
+                return None, None, None
+            bt.close()
+        else:
+            # the generator that was started first ends while the query is suspended at its k-th answer
+            before = observe_answer(sim, qargs) if ans and end is None else None
+            if mode == 'resume':
+                while bt.step():
+                    pass
+            else:
+                end_task(bt, mode)
+            if before is not None and observe_answer(sim, qargs) != before:
+                log.violation('answer-bindings-lost-while-suspended', {'fault': ['bystander', k, mode, order, kind], 'answer_index': len(ans) - 1,
+                                                                        'note': 'ending an independent generator changed the bindings of the suspended query'})
+                task.close()
+                return None, None, None
+            if end is None:
+                # the query goes on to exhaustion; its answers must be the fault-free ones
+                while len(ans) < ANSWER_CAP:
+                    if not task.step():
+                        end = 'exhausted'
+                        break
+                    ans.append(observe_answer(sim, qargs))
+                if end is None:
+                    task.close()
+                    end = 'cap-closed'
+    except RecursionError:
+        end = 'exc:RecursionError'
+    except Discard:
+        raise
+    except Exception as e:
+        end = 'exc:' + type(e).__name__
+    finally:
+        task = None
+        sim.monitor = True
+    info['calls'] = ctl['calls']
+    info['fired'] = 0
+    return ans, end, info
+
+
 def _frame_depth():
     f = sys._getframe(1)
     n = 0
@@ -258,6 +359,8 @@ def execute(plan):
     name = world['query'][0]
     if held:
         log.count('worlds_with_prebinding')
+    yp.assert_fact(yp.atom('bys_fact'), [yp.atom('z'), yp.functor('w', [yp.atom('y')])])
+    yp.assert_fact(yp.atom('bys_fact'), [yp.atom('z2'), yp.functor('w', [yp.atom('y2')])])
     base = sim.snapshot()
     base_bound = sim.bound_count()
     shape = core.short_hash(world['rules'])
@@ -325,6 +428,11 @@ def execute(plan):
             # 10 / 30 frames above its depth, i.e. far below the limit requested for the search
             faults += [['bounded', k, (10, 30)[(k + i) % 2], bool((k + i) % 2)] for k in range(min(n, 4) + 1) for i in range(2)]
             faults += [['unify', pi, k, mode] for pi in range(len(plan.get('unify_pairs', []))) for k in (0, 1) for mode in ('close', 'drop', 'throw', 'resume')]
+            # a second, independent generator (over variables of its own) is suspended at its answer while the query
+            # ends ('inner': it was started after the query, the query ends first - not LIFO), or is itself ended
+            # while the query is suspended at its k-th answer ('outer': it was started before the query)
+            faults += [['bystander', k, ('close', 'drop', 'throw', 'resume')[(k + i) % 4], ('inner', 'outer')[i], ('unify', 'fact')[(k + i // 2) % 2]]
+                       for k in range(min(n, 3) + 1) for i in range(2)]
         else:
             faults = plan['faults']
         for fault in faults:
@@ -363,6 +471,13 @@ def execute(plan):
                 log.count('fault_unify_k%d' % fault[2])
                 if yielded:
                     log.key((shape, 'unify', fault[3], fault[2], core.short_hash(pair)))
+            elif fault[0] == 'bystander':
+                ans, end, info = run_bystander(sim, yp, name, qargs, ctl, min(fault[1], n), fault[2], fault[3], fault[4], log)
+                if ans is None:
+                    return log.result()
+                log.count('fault_bystander_' + fault[3])
+                if info.get('bound', 0) > base_bound:
+                    log.key((shape, 'bystander', fault[2], fault[3], fault[4], info.get('live')))
             elif fault[0] == 'bounded':
                 ans, end, info, holder = run_bounded(sim, yp, name, qargs, ctl, min(fault[1], n), fault[3], fault[2])
                 log.count('fault_bounded')
@@ -408,7 +523,7 @@ def execute(plan):
 
 def narrow(plan, viol):
     f = viol['detail'].get('fault')
-    if f and f[0] in ('abandon', 'raise', 'bounded', 'unify'):
+    if f and f[0] in ('abandon', 'raise', 'bounded', 'unify', 'bystander'):
         c = dict(plan)
         c['faults'] = [f]
         return c
